@@ -149,6 +149,12 @@ CHECKS = {
         'Tie: the translator output is compared with the real schema objects (scalars, ancestors, casts, operators, functions) each run; model type_of vs the real compile_ast_to_ir(...).stype for generated expressions (all argument-type combinations of every binary operator and the polymorphic functions, sets, tuples, arrays, ranges, IF/??/UNION, casts, indirection), type-algebra pairs exhaustively over scalar kinds; '
         'monitors: toy_eval_model results dynamically typed against the inferred type, the output descriptor reporting the inferred type, an IR monitor for non-conforming arguments.',
    note='Trusted: Coq kernel; extraction; translator (compared with the real schema every run); harness; vrt substrate. Only tested: shapes, aliases, DML, FOR, GROUP, backlinks, json/object casts (the model abstains); hypotheses that primitives and casts return their declared types (std library SQL bodies are not modelled). No axioms.'),
+ 'C05': dict(
+   category='proof', design_ref='DESIGN.md section 4, C05 (+ section 9 change log)',
+   technique='Coq invariant proof over all command histories of a catalog state machine mirroring the table/column decisions of pgsql/delta.py, with the storage predicates translated fail-closed from pgsql/types.py; differential correspondence vs the real pgsql delta pipeline interpreted by a catalog simulator; layout monitors against get_pointer_storage_info and SQL probes',
+   text='PARTIAL. 11 machine-checked theorems: for every sequence of adapted storage commands (any length, from any good state) that avoids the one refuted decision, a table/column exists in the catalog iff the layout of the resulting schema addresses it (C05_tracks, C05_no_orphans, C05_no_missing), no emitted command fails in the backend (C05_no_backend_error), every DDL-level history from the empty database keeps the state good (C05_history_tracks), renames / abstract<->concrete / required<->optional emit no storage command (C05_rename_free), the compiler-side and schema-side storage predicates translated from source are the same function (C05_ptrref_agrees); C05_full_refuted shows the unrestricted statement is false of the faithful model (known finding C05-F1). '
+        'Tie: generated DDL histories (create/drop/rename of types and pointers, single<->multi, required<->optional, link properties, bases, abstract<->concrete, computed<->stored) through the REAL schema delta + pgsql/delta adaptation; the emitted dbops stream is interpreted by a PostgreSQL-strict catalog simulator (unknown constructs => abstain, counted) and compared per step with the model and with the real get_pointer_storage_info / ptrref storage info of every pointer; real EdgeQL->SQL compilations of probe queries are looked up in the simulated catalog.',
+   note='Trusted: Coq kernel; extraction; translator; harness incl. the catalog simulator (stands for PostgreSQL DDL semantics; no real backend); vrt substrate. Not modelled: constraints, indexes, triggers, views, data-copy SQL, column types, NOT NULL, pointer merges under multiple inheritance (declared out of scope per history). No axioms.'),
 }
 
 NA_DEFAULT = 'check not built yet (round 1 in progress); see DESIGN.md section 6'
